@@ -154,7 +154,8 @@ func qWeightsFor(prop string, r *PRNG) qWeights {
 		w.restart = 1 // a paused topic/channel stays paused across a graceful restart
 	case "C04":
 		w.req, w.touch, w.adv, w.burst = 16, 12, 30, 5
-		w.pause, w.unpause, w.closeC = 0, 0, 1
+		// (a paused topic stops feeding its channels; what its channels hold keeps timing out and coming back)
+		w.pause, w.unpause, w.closeC = 1, 2, 1
 	case "C05":
 		w.restart = 3
 	case "C07":
